@@ -3,10 +3,11 @@ From Saml Require Import Base TimeModel IdPModel IdPModelProofs.
 
 (* getSPEncryptionCert followed by Encrypt decides exactly as the declarative
    reading of the key descriptors says: the first use="encryption" descriptor
-   decides (no certificate element: error; non-empty certificate: encrypt to it,
-   or error when it does not decode / parse / carry an RSA key); otherwise the
-   first use-less descriptor with a non-empty first certificate; otherwise
-   plaintext.  For every certificate parser and every list of descriptors. *)
+   decides (no certificate element or an empty one: error — fixes F6, F17;
+   otherwise encrypt to it, or error when it does not decode / parse / carry an
+   RSA key); when there is no such descriptor, the first use-less descriptor
+   with a non-empty first certificate; otherwise plaintext.  For every
+   certificate parser and every list of descriptors. *)
 Theorem enc_decision_spec :
   forall cp l, enc_decision cp l = enc_decision_decl cp l.
 Proof. exact IdPModelProofs.enc_decision_spec. Qed.
